@@ -14,21 +14,39 @@ Definition st_of (z : Z) : cstate :=
 Definition oc_of (z : Z) : outcome :=
   match z with 0 => DOk | 1 => DErr | 2 => DDeadlineClient | 3 => DDeadlineOther | _ => DOk end.
 
+Fixpoint placed_idx (ps : list pick) (j : nat) : list nat :=
+  match ps with
+  | [] => []
+  | p :: r => match pk_status p with PPlaced => j :: placed_idx r (S j) | _ => placed_idx r (S j) end
+  end.
+
+Definition choose {A} (x : Z) (l : list A) (d : A) : A := nth (Z.to_nat (pickn x (Z.of_nat (length l)))) l d.
+
 Definition gen_op (x : Z) (s : bal) : op :=
-  let a := pickn x 100 in
+  let a0 := pickn x 100 in
+  let a := match b_cfg s with
+           | None => if pickn (lcg x) 4 =? 0 then a0 else 0
+           | Some _ =>
+               if (36 <=? a0) && (a0 <? 64) && (length (b_published s) =? 0)%nat then 20
+               else if (64 <=? a0) && (a0 <? 86) && (length (placed_idx (b_picks s) 0) =? 0)%nat then 40
+               else if (98 <=? a0) && (length (b_parked s) =? 0)%nat then 70
+               else a0
+           end in
   let x1 := lcg x in let x2 := lcg x1 in let x3 := lcg x2 in let x4 := lcg x3 in
-  if a <? 6 then OpResolver (Z.to_N (pickn x1 3)) (match pickn x2 8 with 0 => CfgNil | 1 => CfgWrongType | _ => CfgVal end)
-  else if a <? 8 then OpResolverErr
-  else if a <? 38 then OpConnState (Z.to_N (pickn x1 (Z.of_N (b_next s) + 1)))
-                                   (st_of (match pickn x2 10 with 0 => 0 | 1 => 1 | 2 => 3 | 3 => 4 | 4 => 1 | _ => 2 end))
-  else if a <? 68 then OpPick (Z.to_nat (pickn x1 (Z.of_nat (length (b_published s)) + 1)))
+  if a <? 5 then OpResolver (Z.to_N (pickn x1 3)) (match pickn x2 8 with 0 => CfgNil | 1 => CfgWrongType | _ => CfgVal end)
+  else if a <? 6 then OpResolverErr
+  else if a <? 36 then OpConnState (Z.to_N (pickn x1 (Z.of_N (b_next s) + (if pickn x3 20 =? 0 then 1 else 0))))
+                                   (st_of (match pickn x2 14 with 0 => 0 | 1 => 1 | 2 => 3 | 3 => 4 | 4 => 1 | _ => 2 end))
+  else if a <? 64 then OpPick (if pickn x1 4 =? 0 then Z.to_nat (pickn x1 (Z.of_nat (length (b_published s)) + 1))
+                               else (length (b_published s) - 1)%nat)
                               (Z.to_N (pickn x2 5)) (negb (pickn x3 5 =? 0))
-                              (match pickn x4 4 with 0 => [] | z => [Z.to_N (pickn (lcg x4) 4)] end)
-                              (match pickn (lcg x4) 3 with 0 => Some (b_now s + pickn x3 20) | _ => None end)
+                              (match pickn x4 4 with 0 => [] | _ => [Z.to_N (pickn (lcg x4) 4)] end)
+                              (match pickn (lcg x4) 3 with 0 => None | _ => Some (b_now s + pickn x3 3000000) end)
                               (pickn (lcg (lcg x4)) 10 =? 0)
-  else if a <? 86 then OpDone (Z.to_nat (pickn x1 (Z.of_nat (length (b_picks s)) + 1))) (oc_of (pickn x2 4))
+  else if a <? 86 then OpDone (if pickn x1 10 =? 0 then Z.to_nat (pickn x1 (Z.of_nat (length (b_picks s)) + 1))
+                               else choose x1 (placed_idx (b_picks s) 0) 0%nat) (oc_of (pickn x2 4))
                               (match pickn x3 3 with 0 => [] | 1 => [Z.to_N (pickn x4 4)] | _ => [Z.to_N (pickn x4 4); Z.to_N (pickn (lcg x4) 4)] end)
-  else if a <? 92 then OpAdvance (pickn x1 30)
+  else if a <? 92 then OpAdvance (if pickn x2 2 =? 0 then pickn x1 30 else 1000000 * pickn x1 8)
   else if a <? 94 then OpCancel (Z.to_nat (pickn x1 (Z.of_nat (length (b_picks s)) + 1)))
   else if a <? 96 then OpFactory (pickn x1 3 =? 0)
   else if a <? 98 then OpGate (pickn x1 2 =? 0)
